@@ -21,7 +21,7 @@ func init() {
 		Run:         runC20,
 		Replay:      replayC20,
 		Shards:      func(string) int { return 16 },
-		// shards 0..9: input catalogue on the plain build; shards 10..15: request mixes on the race build
+		// shards 0..4: input catalogue on the plain build; shards 5..15: request mixes on the race build
 		WorkerBin: func(i int) string {
 			if i < c20InputShards {
 				return os.Getenv("VERIF_PLAIN_BIN")
@@ -59,7 +59,7 @@ func replayC20(c *fw.Ctx, raw json.RawMessage) (string, string) {
 	return replayC20Input(c, raw)
 }
 
-const c20InputShards = 10
+const c20InputShards = 5
 
 func runC20(c *fw.Ctx) {
 	var item int64
